@@ -157,6 +157,29 @@ theorem verifyRLP_source :
       "compare, err := RLPToCanopyTransaction(tx.Signature.Signature); if tx.Memo == RLPV2Indicator { compare, err = RLPToCanopyTransactionV2(tx.Signature.Signature) }; if err != nil { return err }; compareHash, err := compare.GetHash(); if err != nil { return err }; originalHash, err := tx.GetHash(); if err != nil { return err }; if !bytes.Equal(compareHash, originalHash) { return ErrInvalidSignature() }; return nil" := by
   decide
 
+/-- The batch path is per-transaction verification: `ApplyTransactions` checks every transaction with
+the shared batch verifier, marks what `Verify()` reports and executes with a NO-OP verifier — so the
+batch verifier's verdict is final. `verifyAll` therefore has to reach, for its lane, the ed25519 block
+AND the one-by-one verification of the eth-secp256k1, secp256k1 and BLS (single and multisig) tuples:
+no `return` before its last statement (an early exit in the ed25519 block — e.g. "every ed25519
+signature was cached" — would let the other key types of the lane through unverified); the
+one-by-one closure reports every tuple whose `VerifyBytes` fails; `Add` files every supported key
+type into a list that `verifyAll` visits. The model has no path dimension because of this. -/
+theorem batch_verifier_verifies_every_lane_member :
+    Gen.Auth.verifyAllShape =
+      ["verifyBatch := func", "if len(b.ed25519[idx]) != 0 {…}", "verifyBatch(b.ethSecp256k1[idx])",
+       "verifyBatch(b.secp256k1[idx])", "verifyBatch(b.bls12381[idx])", "return"] ∧
+    Gen.Auth.verifyAllEarlyReturns = 0 ∧
+    Gen.Auth.verifyAllClosure =
+      "for _, tuple := range tuples { if ok := tuple.PublicKey.VerifyBytes(tuple.Message, tuple.Signature); ok { SignatureCache.Set(tuple.Key(), []byte{0}) } else { badIndices = append(badIndices, tuple.index) } }; return" ∧
+    Gen.Auth.batchAddLanes.map (·.1) =
+      ["*ED25519PublicKey", "*ETHSECP256K1PublicKey", "*SECP256K1PublicKey", "*BLS12381PublicKey, *BLS12381MultiPublicKey", "default"] ∧
+    Gen.Auth.batchAddLanes.lookup "default" = some "return fmt.Errorf(\"unrecognized public key format\")" ∧
+    Gen.Auth.applyTransactionsBatchUses =
+      ["crypto.NewBatchVerifier()", "s.CheckTx(tx, \"\", batchVerifier)", "batchVerifier.Verify()",
+       "s.ApplyTransaction(uint64(r.Count), tx, hashString, crypto.NewBatchVerifier(true))", "crypto.NewBatchVerifier(true)"] := by
+  decide
+
 deriving instance DecidableEq for Except
 
 /-! ## authorization -/
